@@ -4,6 +4,8 @@ package main
 import (
 	"encoding/json"
 	"fmt"
+	"os"
+	"time"
 )
 
 func jobOf(id int, cf *Config, txns []Txn) Job {
@@ -53,7 +55,55 @@ func probeConfigs() []Config {
 	}
 }
 
+// `c05 probe foreign`: the foreign-root family, one line per configuration
+// (verdicts of the validator path and of the gateway path, executed processors)
+func probeForeign() {
+	items := foreignRootItems()
+	var jobs []Job
+	for i := range items {
+		hs := filterHeaders(&items[i].Config)
+		jobs = append(jobs, jobOf(i, &items[i].Config, []Txn{
+			{Dir: "req", URL: mainURL, Headers: h(hs...)},
+			{Dir: "res", URL: mainURL, Headers: h(hs...)},
+		}))
+		jobs[i].Repeat = items[i].Repeat
+	}
+	res := runJobs(jobs)
+	for i := range items {
+		r := res[i]
+		line := fmt.Sprintf("%-60s %s %s | %s %s %s", items[i].Label, r.LoadStatus, r.RejectText, r.EngineLoad, r.EngineText, r.Runs)
+		for _, t := range r.Txns {
+			line += " || " + t.Outcome
+			for _, e := range t.Events {
+				line += fmt.Sprintf(" %s.%s/%s:%s", e.Flow, e.Key, e.Dir, e.Cond)
+			}
+		}
+		fmt.Println(line)
+	}
+}
+
+// `c05 probe ladder <n>...`: layered DAGs of the given depths, time of the validator
+func probeLadder(args []string) {
+	for _, a := range args {
+		var n int
+		fmt.Sscan(a, &n)
+		cf := ladderConfig(n, true)
+		t0 := time.Now()
+		res := runJobs([]Job{jobOf(0, &cf, []Txn{{Dir: "req", URL: mainURL, Headers: h()}})})
+		r := res[0]
+		fmt.Printf("ladder depth %d: %s %s | %s | %v\n", n, r.LoadStatus, r.RejectText, r.EngineLoad, time.Since(t0))
+	}
+}
+
 func probe() {
+	if len(os.Args) > 2 && os.Args[2] == "foreign" {
+		probeForeign()
+		return
+	}
+	if len(os.Args) > 3 && os.Args[2] == "ladder" {
+		probeLadder(os.Args[3:])
+		return
+	}
 	var jobs []Job
 	cfgs := probeConfigs()
 	for i := range cfgs {
